@@ -115,7 +115,7 @@ func c16MutatingLock(c *Ctx) *RuleResult {
 					s := exprStr(gd.Cond)
 					switch {
 					case gd.Pos && resN != "" && s == resN+" > 0":
-					case !gd.Pos && resErr != "" && s == resErr+" != nil":
+					case resErr != "" && guardErrIsNil(info, gd, resErr):
 					default:
 						extraOK = false
 					}
@@ -147,8 +147,21 @@ func c16MutatingLock(c *Ctx) *RuleResult {
 			continue
 		}
 		construct := constructOf(w.Unit, "cachedDigest = "+exprStr(w.RHS))
-		if w.Unit.Fn == upd {
-			r.ok(construct, posOf(p, w.Node), "in updateCachedDigest")
+		onlyFromUpd := func(fn *types.Func) bool {
+			// every static call site of the helper is inside updateCachedDigest
+			sites := CallsTo(units, fn)
+			if len(sites) == 0 {
+				return false
+			}
+			for _, s := range sites {
+				if s.Unit.Fn != upd {
+					return false
+				}
+			}
+			return true
+		}
+		if w.Unit.Fn == upd || onlyFromUpd(w.Unit.Fn) {
+			r.ok(construct, posOf(p, w.Node), "in updateCachedDigest (or a helper only it calls)")
 		} else {
 			r.bad(c.Prop, construct, posOf(p, w.Node), "a digest is cached outside updateCachedDigest, i.e. without the contents being frozen")
 		}
@@ -385,14 +398,25 @@ func c16Lifetime(c *Ctx) *RuleResult {
 	// frozen reader pairing
 	op := p.Unit(virtualPkg, "fileBackedFile.openReadFrozen")
 	cl := p.Unit(virtualPkg, "frozenFileBackedFile.Close")
-	incBoth := len(FieldWrites([]*FuncUnit{op}, rc, false)) > 0 && len(FieldWrites([]*FuncUnit{op}, fdc, false)) > 0
+	// the functions themselves plus the helpers they call
+	withCallees := func(u *FuncUnit) []*FuncUnit {
+		out := []*FuncUnit{u}
+		for fn := range staticReach(p, []ast.Node{u.Decl.Body}, u.Info()) {
+			if fd := p.Decl(fn); fd != nil && relPkg(fn.Pkg()) == virtualPkg {
+				out = append(out, &FuncUnit{Fn: fn, Decl: fd, Pkg: p.declPkg[fd]})
+			}
+		}
+		return out
+	}
+	opU, clU := withCallees(op), withCallees(cl)
+	incBoth := len(FieldWrites(opU, rc, false)) > 0 && len(FieldWrites(opU, fdc, false)) > 0
 	decF := false
-	for _, w := range FieldWrites([]*FuncUnit{cl}, fdc, false) {
+	for _, w := range FieldWrites(clU, fdc, false) {
 		if inc, ok := w.Node.(*ast.IncDecStmt); ok && inc.Tok == token.DEC {
 			decF = true
 		}
 	}
-	rel := len(CallsTo([]*FuncUnit{cl}, p.LookupFunc(virtualPkg, "fileBackedFile.releaseReferencesLocked"))) > 0
+	rel := len(CallsTo(clU, p.LookupFunc(virtualPkg, "fileBackedFile.releaseReferencesLocked"))) > 0
 	if incBoth && decF && rel {
 		r.ok("frozen-reader|pairing", posOf(p, cl.Decl), "openReadFrozen takes a reference and a freeze; Close gives both back")
 	} else {
